@@ -38,7 +38,7 @@ Apply(o, ev) ==
            THEN Fail(o, "machinery.bad_send")
            ELSE ObsSend(o, ev.len, ev.s0, ev.n)
     [] ev.k = "arr"  -> ObsArrive(o, ev.s, ev.hi)
-    [] ev.k = "nack" -> ObsNack(o, ev.n)
+    [] ev.k = "nack" -> IF "lost" \in DOMAIN ev THEN ObsNackList(o, ev.n, ToSet(ev.lost)) ELSE ObsNack(o, ev.n)
     [] ev.k = "pli"  -> ObsDiscard(o)
     [] ev.k = "rtx"  ->
          \* "resent (as RTX when negotiated, otherwise verbatim)": the form must match
